@@ -124,6 +124,12 @@ class UseWalrusIf(SimpleCodemod, NameResolutionMixin):
             for assignment in scope.assignments[name.value]
             for reference in assignment.references
         }
+        # `x += 1` reads x too, although it is not recorded as an access
+        scope_node = getattr(scope, "node", None) or self.context.module
+        if scope_node is not None and matchers.findall(
+            scope_node, matchers.AugAssign(target=matchers.Name(name.value))
+        ):
+            return False
         return len(references) == 1
 
     def _is_local_variable(self, name: cst.Name) -> bool:
